@@ -336,6 +336,15 @@ pub fn hwb_suite<C: HwbLike, G: Gen>(g: &mut G, part: u8) {
         ob!("B2.in_bounds_unchanged", k.w() == c.w() && k.b() == c.b());
         return;
     }
+    if part == 7 {
+        // the assigning form under the same B1+B4 contract (one clamp_assign, no comparison with clamp)
+        let mut a = c;
+        a.clamp_assign();
+        ob!("B1.clamp_assign_result_is_within_bounds", a.is_within_bounds());
+        ob!("B4.sum_at_most_one", a.w() >= C::min_w() && a.b() >= C::min_b() && a.w() + a.b() <= C::one());
+        ob!("B4.hue_untouched", a.hue_raw() == c.hue_raw());
+        return;
+    }
     let k = c.clamp();
     if part == 1 {
         ob!("B1.clamp_result_is_within_bounds", k.is_within_bounds());
@@ -533,6 +542,11 @@ harnesses! { REG_MISC, "C03", "c03";
       desc: "B1+B4: clamp result within the coupled bound w>=0, b>=0, w+b<=1; hue untouched; all finite (hue, w, b)" }
     fn hwb_f32_b1(g) { hwb_suite::<Hwb<SrgbStd, f32>, G>(g, 1) }
 
+    { id: "clamp.hwb_f32.b1_assign", tier: quick, label: "complete",
+      func: "palette::Hwb::clamp_assign [macros/clamp.rs impl_clamp_hwb!]",
+      desc: "B1+B4 for the assigning form: result within the coupled bound; hue untouched; all finite (hue, w, b)" }
+    fn hwb_f32_b1a(g) { hwb_suite::<Hwb<SrgbStd, f32>, G>(g, 7) }
+
     { id: "clamp.hwb_f32.b2", tier: quick, label: "complete",
       func: "palette::Hwb::{clamp,clamp_assign,is_within_bounds} [macros/clamp.rs impl_clamp_hwb!/impl_is_within_bounds_hwb!]",
       desc: "B2: within ==> clamp is the identity; all finite (hue, w, b)" }
@@ -552,6 +566,11 @@ harnesses! { REG_MISC, "C03", "c03";
       func: "palette::Okhwb::{clamp,clamp_assign,is_within_bounds} [macros/clamp.rs impl_clamp_hwb!/impl_is_within_bounds_hwb!]",
       desc: "B1+B4: clamp result within the coupled bound w>=0, b>=0, w+b<=1; hue untouched; all finite (hue, w, b)" }
     fn okhwb_f32_b1(g) { hwb_suite::<Okhwb<f32>, G>(g, 1) }
+
+    { id: "clamp.okhwb_f32.b1_assign", tier: quick, label: "complete",
+      func: "palette::Okhwb::clamp_assign [macros/clamp.rs impl_clamp_hwb!]",
+      desc: "B1+B4 for the assigning form: result within the coupled bound; hue untouched; all finite (hue, w, b)" }
+    fn okhwb_f32_b1a(g) { hwb_suite::<Okhwb<f32>, G>(g, 7) }
 
     { id: "clamp.okhwb_f32.b2", tier: quick, label: "complete",
       func: "palette::Okhwb::{clamp,clamp_assign,is_within_bounds} [macros/clamp.rs impl_clamp_hwb!/impl_is_within_bounds_hwb!]",
@@ -573,6 +592,11 @@ harnesses! { REG_MISC, "C03", "c03";
       desc: "B1+B4: clamp result within the coupled bound w>=0, b>=0, w+b<=1; hue untouched; all finite (hue, w, b)" }
     fn hwb_f64_b1(g) { hwb_suite::<Hwb<SrgbStd, f64>, G>(g, 1) }
 
+    { id: "clamp.hwb_f64.b1_assign", tier: thorough, label: "complete",
+      func: "palette::Hwb::clamp_assign [macros/clamp.rs impl_clamp_hwb!]",
+      desc: "B1+B4 for the assigning form: result within the coupled bound; hue untouched; all finite (hue, w, b)" }
+    fn hwb_f64_b1a(g) { hwb_suite::<Hwb<SrgbStd, f64>, G>(g, 7) }
+
     { id: "clamp.hwb_f64.b2", tier: thorough, label: "complete",
       func: "palette::Hwb::{clamp,clamp_assign,is_within_bounds} [macros/clamp.rs impl_clamp_hwb!/impl_is_within_bounds_hwb!]",
       desc: "B2: within ==> clamp is the identity; all finite (hue, w, b)" }
@@ -592,6 +616,11 @@ harnesses! { REG_MISC, "C03", "c03";
       func: "palette::Okhwb::{clamp,clamp_assign,is_within_bounds} [macros/clamp.rs impl_clamp_hwb!/impl_is_within_bounds_hwb!]",
       desc: "B1+B4: clamp result within the coupled bound w>=0, b>=0, w+b<=1; hue untouched; all finite (hue, w, b)" }
     fn okhwb_f64_b1(g) { hwb_suite::<Okhwb<f64>, G>(g, 1) }
+
+    { id: "clamp.okhwb_f64.b1_assign", tier: thorough, label: "complete",
+      func: "palette::Okhwb::clamp_assign [macros/clamp.rs impl_clamp_hwb!]",
+      desc: "B1+B4 for the assigning form: result within the coupled bound; hue untouched; all finite (hue, w, b)" }
+    fn okhwb_f64_b1a(g) { hwb_suite::<Okhwb<f64>, G>(g, 7) }
 
     { id: "clamp.okhwb_f64.b2", tier: thorough, label: "complete",
       func: "palette::Okhwb::{clamp,clamp_assign,is_within_bounds} [macros/clamp.rs impl_clamp_hwb!/impl_is_within_bounds_hwb!]",
